@@ -131,9 +131,7 @@ def _plain(j):
 
 
 def model_request(case):  # noqa: F811
-    """set/dict and the special value domains (lists, strings, floats) are outside the Lean value model"""
-    if case["tool"] in ("set", "dict"):
-        return None
+    """the special value domains (lists, strings, floats) are outside the Lean value model"""
     vals = list(case["srcs"][0]["script"]) + [v for k, v in case["params"].items() if isinstance(v, list)]
     if not all(_plain(v) for v in vals):
         return None
